@@ -993,4 +993,56 @@ func litestream.(*DB).Snapshot(db, ctx) (info, err)
   at litestream.(*DB).SnapshotReader#1 set c06_snapPos = $result0.TXID
   at litestream.ReplicaClient.WriteLTXFile#1 assert [C06.snapshot-range] $arg1 == 9 && $arg2 == 1 && $arg3 == c06_snapPos && $arg4 == r
   ensures [C06.snapshot-result] err == nil ==> info != nil
+
+// ---------------------------------------------------------------------------
+// C18 (build tag vfs): one poll of one level of the VFS read replica. Applied files are the listed files
+// [c18_first, c18_first + c18_n).
+ghost c18_first Int
+ghost c18_n Int
+
+func litestream.(*VFSFile).pollLevel(f, ctx, level, prevMaxTXID, baseCommit) (rmax, rindex, rcommit, rreplace, err)
+  requires f != nil && f.client != nil && c18_n == 0
+  assumes 0 <= prevMaxTXID && prevMaxTXID < 9223372036854775807     // A-txid-range
+  modifies $alloc, it_idx, c18_first, c18_n, key("MapDom_map_uint32_ltx_PageIndexElem"), key("MapVal_map_uint32_ltx_PageIndexElem"), prefix("MapVal_map_uint32_ltx_PageIndexElem")
+  at litestream.ReplicaClient.LTXFiles#1 assert [C18.poll-seek] $recv == f.client && $arg1 == level && $arg2 == prevMaxTXID + 1
+  at litestream.ReplicaClient.LTXFiles#1 set c18_first = seekIdx(f.client, level, prevMaxTXID + 1)
+  at litestream.FetchPageIndex#1 assert [C18.contiguous] $arg1 == f.client && $arg2 == item(itr, it_idx[itr] - 1) && fmin($arg2) == maxTXID + 1 && it_idx[itr] - 1 == c18_first + c18_n
+  at litestream.FetchLTXHeader#1 assert [C18.header-of-same-file] $arg1 == f.client && $arg2 == item(itr, it_idx[itr] - 1)
+  at litestream.FetchLTXHeader#1 set c18_n = ($result1 == nil ? c18_n + 1 : c18_n)
+  ensures [C18.max] err == nil ==> rmax == (c18_n == 0 ? prevMaxTXID : fmax(item(itr, c18_first + c18_n - 1))) && rmax >= prevMaxTXID
+  ensures [C18.commit-last] err == nil ==> rcommit == (c18_n == 0 ? baseCommit : hcommit(item(itr, c18_first + c18_n - 1)))
+  ensures [C18.index-within-commit] err == nil ==> rindex != nil && (forall p int :: {has(rindex, p)} has(rindex, p) ==> p <= rcommit)
+  ensures [C18.index-from-files] err == nil ==> (forall p int :: {has(rindex, p)} has(rindex, p) ==> (exists k int :: {item(itr, k)} c18_first <= k && k < c18_first + c18_n && inIdx(item(itr, k), p)))
+  ensures [C18.poll-complete] err == nil ==> (forall k int, p int :: {inIdx(item(itr, k), p)} c18_first <= k && k < c18_first + c18_n && inIdx(item(itr, k), p) && p <= rcommit ==> has(rindex, p))
+  ensures [C18.poll-complete-noshrink] err == nil && !rreplace ==> (forall k int, p int :: {inIdx(item(itr, k), p)} c18_first <= k && k < c18_first + c18_n && inIdx(item(itr, k), p) ==> has(rindex, p))
+  ensures [C18.no-replace-without-shrink] err == nil && rreplace ==> c18_n >= 1
+  loop 0 invariant f == old(f) && f.client == old(f.client) && level == old(level) && itr != nil && itOK(itr) && it_client[itr] == f.client && it_level[itr] == level && wfLevel(f.client, level)
+  loop 0 invariant c18_first == seekIdx(f.client, level, prevMaxTXID + 1) && 0 <= c18_n && it_idx[itr] == c18_first + c18_n
+  loop 0 invariant maxTXID == (c18_n == 0 ? prevMaxTXID : fmax(item(itr, it_idx[itr] - 1))) && 0 <= maxTXID && maxTXID < 9223372036854775807
+  loop 0 invariant newCommit == (c18_n == 0 ? baseCommit : hcommit(item(itr, it_idx[itr] - 1))) && lastCommit == newCommit && (replaceIndex ==> c18_n >= 1)
+  loop 0 invariant index != nil && fresh(index) && (forall p int :: {has(index, p)} has(index, p) ==> p <= newCommit)
+  loop 0 invariant (forall p int :: {has(index, p)} has(index, p) ==> (exists k int :: {item(itr, k)} c18_first <= k && k < c18_first + c18_n && inIdx(item(itr, k), p)))
+  loop 0 invariant [C18.poll-complete] (forall k int, p int :: {inIdx(item(itr, k), p)} c18_first <= k && k < c18_first + c18_n && inIdx(item(itr, k), p) && p <= newCommit ==> has(index, p))
+  loop 0 invariant !replaceIndex ==> (forall k int, p int :: {inIdx(item(itr, k), p)} c18_first <= k && k < c18_first + c18_n && inIdx(item(itr, k), p) ==> has(index, p))
+  loop 1 invariant f == old(f) && f.client == old(f.client) && itr != nil && itOK(itr) && it_client[itr] == f.client && it_level[itr] == level && info == item(itr, it_idx[itr] - 1) && it_idx[itr] == c18_first + c18_n && c18_n >= 1
+  loop 1 invariant index != nil && fresh(index) && idx != nil && idx != index && newCommit == hcommit(info) && (forall p int :: {has(index, p)} has(index, p) ==> p <= newCommit)
+  loop 1 invariant (forall p int :: {has(idx, p)} has(idx, p) <==> inIdx(info, p)) && (forall p int :: {visited(0)[p]} visited(0)[p] ==> has(index, p))
+  loop 1 invariant (forall p int :: {inIdx(info, p)} inIdx(info, p) ==> has(idx, p))
+  loop 1 invariant (forall p int :: {has(index, p)} has(index, p) ==> (exists k int :: {item(itr, k)} c18_first <= k && k < c18_first + c18_n && inIdx(item(itr, k), p)))
+  loop 1 invariant !replaceIndex ==> (forall k int, p int :: {inIdx(item(itr, k), p)} c18_first <= k && k < c18_first + c18_n - 1 && inIdx(item(itr, k), p) ==> has(index, p))
+
+// FileSize: the size reported to SQLite is (highest page number known to the index, the pending index or
+// the dirty set) * page size; with the index invariant "pages <= commit, commit present" that is commit * page size.
+func litestream.(*VFSFile).FileSize(f) (size, err)
+  requires f != nil
+  assumes 0 <= f.pageSize && f.pageSize <= 65536     // A-pagesize
+  modifies $alloc
+  ensures [C18.size-covers] err == nil ==> (forall p int :: {has(f.index, p)} has(f.index, p) ==> p * f.pageSize <= size) && (forall p int :: {has(f.pending, p)} has(f.pending, p) ==> p * f.pageSize <= size) && (forall p int :: {has(f.dirty, p)} has(f.dirty, p) ==> p * f.pageSize <= size)
+  ensures [C18.size-tight] err == nil && size > 0 ==> (exists p int :: {has(f.index, p)} has(f.index, p) && p * f.pageSize == size) || (exists p int :: {has(f.pending, p)} has(f.pending, p) && p * f.pageSize == size) || (exists p int :: {has(f.dirty, p)} has(f.dirty, p) && p * f.pageSize == size)
+  loop 0 invariant f == old(f) && pageSize == f.pageSize && size >= 0 && (forall p int :: {visited(0)[p]} visited(0)[p] ==> p * pageSize <= size)
+  loop 0 invariant size > 0 ==> (exists p int :: {has(f.index, p)} has(f.index, p) && p * pageSize == size)
+  loop 1 invariant f == old(f) && pageSize == f.pageSize && size >= 0 && (forall p int :: {has(f.index, p)} has(f.index, p) ==> p * pageSize <= size) && (forall p int :: {visited(1)[p]} visited(1)[p] ==> p * pageSize <= size)
+  loop 1 invariant size > 0 ==> (exists p int :: {has(f.index, p)} has(f.index, p) && p * pageSize == size) || (exists p int :: {has(f.pending, p)} has(f.pending, p) && p * pageSize == size)
+  loop 2 invariant f == old(f) && pageSize == f.pageSize && size >= 0 && (forall p int :: {has(f.index, p)} has(f.index, p) ==> p * pageSize <= size) && (forall p int :: {has(f.pending, p)} has(f.pending, p) ==> p * pageSize <= size) && (forall p int :: {visited(2)[p]} visited(2)[p] ==> p * pageSize <= size)
+  loop 2 invariant size > 0 ==> (exists p int :: {has(f.index, p)} has(f.index, p) && p * pageSize == size) || (exists p int :: {has(f.pending, p)} has(f.pending, p) && p * pageSize == size) || (exists p int :: {has(f.dirty, p)} has(f.dirty, p) && p * pageSize == size)
 */
